@@ -297,6 +297,39 @@ def check(run):
     run.count(nreq)
     run.extra['cache_requests_checked'] = nreq
 
+    # 2d. entering through a functools.partial (one and two levels) or directly makes no difference to the options the
+    # converted code runs under: same FunctionScope entries for converted_call(g, (1,), options=o) and
+    # converted_call(partial(g, 1), (), options=o)
+    import functools
+    function_wrappers.FunctionScope.__init__ = rec_init
+    npart = 0
+    try:
+        for pi, (r, u, i, f) in enumerate(values):
+            ns = {}
+            exec(compile('def p%d(x):\n    def inner(y):\n        return y + 1\n    return inner(x)\n' % pi, '<c20-partial-%d>' % pi, 'exec'), ns)
+            import linecache
+            linecache.cache['<c20-partial-%d>' % pi] = (0, None, ['def p%d(x):\n' % pi, '    def inner(y):\n', '        return y + 1\n', '    return inner(x)\n'], '<c20-partial-%d>' % pi)
+            g = ns['p%d' % pi]
+            seen = []
+            for ent, args in ((g, (1,)), (functools.partial(g, 1), ()), (functools.partial(functools.partial(g), 1), ())):
+                o = CO(recursive=r, user_requested=u, internal_convert_user_code=i, optional_features=f)
+                del seen_scopes[:]
+                try:
+                    res = _api.converted_call(ent, args, None, options=o)
+                except Exception as e:   # noqa
+                    res = ('raise', type(e).__name__)
+                seen.append((res, [(n, x.as_tuple()) for n, x in seen_scopes]))
+                npart += 1
+            if not (seen[0] == seen[1] == seen[2]):
+                failures.append(('a function entered through functools.partial runs under other options than the same function entered directly',
+                                 'ConversionOptions(recursive=%r, user_requested=%r, internal_convert_user_code=%r, optional_features=%r)' % (r, u, i, f),
+                                 'direct: %r; partial: %r; partial of partial: %r' % tuple(seen)))
+                break
+    finally:
+        function_wrappers.FunctionScope.__init__ = orig_init
+    run.count(npart)
+    run.extra['partial_entries_checked'] = npart
+
     # 3. model vs implementation, evaluated inside Coq
     corr_bad = None
     if tie_ok:
